@@ -1,0 +1,26 @@
+"""
+Verification hooks
+
+Every hook in plasTeX is a single guarded line ``if _verif.ENABLED: _verif.emit(...)``.
+``ENABLED`` is false unless the environment variable PLASTEX_VERIF is set when
+plasTeX is imported, and even then nothing happens until a test harness
+installs a ``sink`` callable.  The hooks only observe; they never change state.
+"""
+import os
+
+ENABLED = bool(os.environ.get('PLASTEX_VERIF'))
+
+# callable(dict) installed by a verification harness
+sink = None
+
+# per-process sequence number of emitted events
+seq = 0
+
+def emit(ev, **kw):
+    global seq
+    if sink is None:
+        return
+    seq += 1
+    kw['ev'] = ev
+    kw['seq'] = seq
+    sink(kw)
